@@ -83,6 +83,9 @@ def strategy(tier):
         # again / a second, equal Process object), as p.children() +
         # p.children(recursive=True) does
         dups=st.lists(st.tuples(st.integers(0, 7), st.booleans()), max_size=2),
+        # every sleep may last longer than asked for (loaded machine): the
+        # deadline is a clock time, not a count of polls
+        oversleep=st.sampled_from([0, 0, 0, 0.5, 2.0, 3.0]),
     ))
 
 
@@ -179,6 +182,10 @@ def run_case(case):
     blocking_forever = False
     objs = []
     k.waitpid_eintr = set(case["eintr"])
+    k.oversleep = case.get("oversleep", 0)
+    slack = POLL_MAX * (1 + k.oversleep)  # the longest a single poll sleep can last
+    if k.oversleep:
+        labels.add("oversleeping")
     with simk.installed(k):
         specs = []
         for i, pr in enumerate(procs):
@@ -273,7 +280,7 @@ def run_case(case):
                         raise Violation("timeout-fields", f"{desc}: {exc!r}")
                     if t_ret + EPS < deadline:
                         raise Violation("timeout-early", f"{desc}: raised at t+{t_ret - t_call}, deadline {timeout}")
-                    if t_ret > deadline + POLL_MAX + EPS:
+                    if t_ret > deadline + slack + EPS:
                         raise Violation("timeout-late", f"{desc}: raised {t_ret - deadline}s after the deadline")
                     polls = [e for e in log if e["op"] in ("waitpid", "kill")]
                     if kind == "never" and not any(e.get("result") == "EINTR" for e in polls):
@@ -378,7 +385,7 @@ def run_case(case):
                     raise Violation("wait_procs-callback-alive", f"{desc}: callback for alive pid {pid}")
             if timeout is None and alive:
                 raise Violation("wait_procs-alive-without-timeout", f"{desc}: {alive}")
-            if timeout is not None and t_ret - t_call > timeout + POLL_MAX + EPS:
+            if timeout is not None and t_ret - t_call > timeout + slack + EPS:
                 raise Violation("wait_procs-late", f"{desc}: took {t_ret - t_call}")
             labels.add("wait_procs")
             if len(objs) >= 3:
